@@ -2,7 +2,9 @@
 
 ``CrashNode`` and ``PauseNode`` set a ``_crashed`` flag on the target entity.
 When ``_crashed`` is True, ``Event.invoke()`` silently drops events targeting
-that entity (same pattern as cancelled events).
+that entity (same pattern as cancelled events) and ``ProcessContinuation``
+parks the entity's in-flight processes instead of advancing them; they are
+resumed when the entity restarts.
 """
 
 from __future__ import annotations
@@ -18,6 +20,22 @@ if TYPE_CHECKING:
     from happysimulator.faults.fault import FaultContext
 
 logger = logging.getLogger(__name__)
+
+
+def _resume_parked_processes(entity, now: Instant) -> list[Event]:
+    """Re-schedule the processes that were frozen while ``entity`` was down.
+
+    ``ProcessContinuation.invoke()`` parks a continuation that comes due while
+    its target is crashed.  Processing resumes from the restart time, so the
+    parked continuations are handed back to the simulation stamped ``now``.
+    """
+    parked = getattr(entity, "_parked_continuations", None)
+    if not parked:
+        return []
+    entity._parked_continuations = []
+    for continuation in parked:
+        continuation.time = now
+    return list(parked)
 
 
 @dataclass(frozen=True)
@@ -58,13 +76,14 @@ class CrashNode:
 
         if self.restart_at is not None:
 
-            def restart(e: Event) -> None:
+            def restart(e: Event) -> list[Event]:
                 entity._crashed = False  # type: ignore[attr-defined]
                 logger.info(
                     "[FaultInjection] Restarted '%s' at %s",
                     entity_name,
                     e.time,
                 )
+                return _resume_parked_processes(entity, e.time)
 
             events.append(
                 Event.once(
@@ -104,9 +123,10 @@ class PauseNode:
             entity._crashed = True  # type: ignore[attr-defined]
             logger.info("[FaultInjection] Paused '%s' at %s", entity_name, e.time)
 
-        def resume(e: Event) -> None:
+        def resume(e: Event) -> list[Event]:
             entity._crashed = False  # type: ignore[attr-defined]
             logger.info("[FaultInjection] Resumed '%s' at %s", entity_name, e.time)
+            return _resume_parked_processes(entity, e.time)
 
         events.append(
             Event.once(
